@@ -129,7 +129,8 @@ inductive CondInit where
 
 inductive CondOut where
   | passCondIn               -- `Identity(cond_in)`
-  | ofNewState               -- computed from carried OUTPUTS (after the body)
+  | ofNewState               -- computed from carried OUTPUTS (after the body; for the vmapped while:
+                             -- the per-lane predicate reads the MASKED next state, not the raw body results)
   | ofOldState               -- computed from carried inputs only (would be wrong)
   | other
   deriving DecidableEq, Repr
